@@ -5,6 +5,13 @@ def dispatch (op : String) (a : V) : R V :=
   match op with
   | "ping" => pure a
   | "gae" => gaeOp a
+  | "tab_step" => tabStepOp a
+  | "tab_reset" => tabResetOp a
+  | "tab_components" => tabComponentsOp a
+  | "step_ok" => stepOkOp a
+  | "wrap_expect" => wrapExpectOp a
+  | "rescale" => rescaleOp a
+  | "clip" => clipOp a
   | _ => throw s!"unknown op {op}"
 
 def handleLine (line : String) : String :=
